@@ -2311,6 +2311,10 @@ func (p *Parser) evaluateLogicalOperation(ctx context, operator LogicalOperator,
 		if errTemp != nil {
 			return nil, errTemp
 		}
+
+		if !rightExpression.ValueType().IsBool() {
+			return nil, p.expectedError("boolean value", operatorToken)
+		}
 		leftExpression = LogicalOperation{
 			left:     leftExpression,
 			operator: operatorValue,
